@@ -3,6 +3,7 @@ mod checks_c03;
 mod checks_c04;
 mod checks_c05;
 mod checks_c06;
+mod pinned;
 mod checks_c09;
 mod checks_c12;
 mod checks_c17;
